@@ -10,7 +10,6 @@ import (
 	"reflect"
 	"sort"
 	"strings"
-	"unsafe"
 
 	"github.com/specterops/dawgs/cypher/frontend"
 	"github.com/specterops/dawgs/cypher/models/cypher"
@@ -42,10 +41,10 @@ func walkSymbols(v reflect.Value, seen map[uintptr]bool, fv func(*cypher.Variabl
 		seen[p] = true
 		switch v.Type() {
 		case typVariablePtr:
-			fv((*cypher.Variable)(unsafe.Pointer(p)))
+			fv((*cypher.Variable)(v.UnsafePointer()))
 			return
 		case typParameterPtr:
-			fp((*cypher.Parameter)(unsafe.Pointer(p)))
+			fp((*cypher.Parameter)(v.UnsafePointer()))
 			return
 		}
 		walkSymbols(v.Elem(), seen, fv, fp, depth+1)
@@ -103,7 +102,7 @@ func pathVariableSymbols(q *cypher.RegularQuery) map[string]bool {
 			}
 			seen[v.Pointer()] = true
 			if v.Type() == typ {
-				pp := (*cypher.PatternPart)(unsafe.Pointer(v.Pointer()))
+				pp := (*cypher.PatternPart)(v.UnsafePointer())
 				if pp.Variable != nil && pp.Variable.Symbol != "" {
 					out[pp.Variable.Symbol] = true
 				}
